@@ -45,7 +45,7 @@ def run_one(sid, tier):
             out = r.stdout.decode("utf-8", "replace")
             viol = [l for l in out.splitlines() if l.startswith("VIOLATION")]
             res["results"][p] = {"exit": r.returncode, "caught": r.returncode == 1 and bool(viol),
-                                 "no_failing_input": any("no-failing-input-found" in l for l in viol),
+                                 "no_failing_input": bool(viol) and all("no-failing-input-found" in l for l in viol),
                                  "violation_lines": viol[:3], "secs": round(time.time() - t0, 1),
                                  "tail": out.splitlines()[-6:]}
         res["caught"] = any(v["caught"] for v in res["results"].values())
